@@ -19,12 +19,25 @@ func main() {
 	r.Register("m", func(a []string) string { return pgen.FrameAPI() })
 	// pp FAM MS tok..: Parse fed back to back while a ping is pending (pingunit.go)
 	r.Register("pp", func(a []string) string { o, _ := runPing(a); return o })
+	// locks send: mutexes lexically held at calls that can reach Conn.WriteTo in package packet (locksend.go)
+	r.Register("locks", func(a []string) string {
+		if txt, ok := locksAcrossSend(); ok {
+			return txt
+		}
+		return "unrecognised"
+	})
 	// gate SEND hex..: Parse while a send of that kind is held inside Conn.WriteTo (gateunit.go)
 	r.Register("gate", func(a []string) string { o, _ := runGate(a); return o })
 	if r.Replayed() {
 		return
 	}
 	r.Do("m", "Frame")
+	if _, ok := locksAcrossSend(); ok {
+		r.Do("locks", "send")
+		r.Stat("locks.send.compared", 1)
+	} else {
+		r.Stat("locks.send.unrecognised", 1)
+	}
 	pgen.Corpus(r)
 	rng := r.Rand()
 	cfgs := pgen.Cfgs()
